@@ -213,9 +213,11 @@ def run_replay(opsfile, trace, size=4000, unstable=True):
 STEP_RE = re.compile(r'^S (\S*) (\S*) (?:PANIC|REPLY=(\d) NABS=(\d+) NWF=(\d+) ALLOC=(\d))(.*)$')
 
 
-def run_drv(trace, noabs=False, timeout=600):
-    """returns list of step dicts and the DONE dict"""
-    rc, o, e = sh('ulimit -s unlimited 2>/dev/null || ulimit -s 4000000; exec %s seq %s %s' % (os.path.join(BIN, 'drv'), trace, 'noabs' if noabs else ''), timeout=timeout)
+def run_drv(trace, noabs=False, timeout=240):
+    """returns list of step dicts and the DONE dict.  A disk whose index blocks point into other objects' data can make
+       the abstraction walk very large: the driver runs under a time and a memory limit, and a trace it cannot judge
+       within them counts as a failing step (reported with the operations as replay), never as a pass."""
+    rc, o, e = sh('ulimit -s unlimited 2>/dev/null || ulimit -s 4000000; ulimit -v 6000000; exec %s seq %s %s' % (os.path.join(BIN, 'drv'), trace, 'noabs' if noabs else ''), timeout=timeout)
     steps, done = [], {}
     for line in o.splitlines():
         m = STEP_RE.match(line)
@@ -348,12 +350,20 @@ def judge_ops(hdr, ops, tag, noabs=False):
     return steps, done, (res[0] if res else {})
 
 
-def shrink(hdr, ops, pred, budget=40):
+SHRINK_T0 = [None]     # wall-clock budget of all minimisation of one check run (a failing input is reported unshrunk
+SHRINK_TOTAL = 300     # rather than not at all: the check must end within its time limit)
+
+
+def shrink(hdr, ops, pred, budget=40, seconds=100):
     """delta-debug the op list while pred(steps) holds"""
+    import time as _t
+    if SHRINK_T0[0] is None:
+        SHRINK_T0[0] = _t.time()
+    t_end = min(_t.time() + seconds, SHRINK_T0[0] + SHRINK_TOTAL)
     n = 2
     cur = list(ops)
     runs = 0
-    while len(cur) >= 2 and runs < budget:
+    while len(cur) >= 2 and runs < budget and _t.time() < t_end:
         chunk = max(1, len(cur) // n)
         reduced = False
         for i in range(0, len(cur), chunk):
@@ -367,7 +377,7 @@ def shrink(hdr, ops, pred, budget=40):
                 n = max(n - 1, 2)
                 reduced = True
                 break
-            if runs >= budget:
+            if runs >= budget or _t.time() >= t_end:
                 break
         if not reduced:
             if chunk == 1:
